@@ -94,6 +94,9 @@ TEMPLATES = {
 }
 
 
+LONG_DIR = os.path.join("a_rather_long_directory_name_for_generated_sources_0123456789", "and_a_second_level_that_is_long_too_0123456789")
+
+
 def render_file(ext, lengths):
     body = "".join(TEMPLATES[ext](i, n) for i, n in enumerate(lengths))
     if ext == "java":
@@ -158,6 +161,9 @@ def check_cases(chk, n_cases):
             root = os.path.join(tmp, f"r{ci}")
             os.makedirs(root)
             nfiles = chk.rng.choice([1, 1, 2, 3, 4])
+            # a fifth of the cases: paths longer than an 80-column console, which is what rich assumes when the output is
+            # piped; every listed function must still show its length, symbol and name (seeded change C02-18: lines cropped)
+            narrow = chk.rng.random() < 0.2
             files = []
             for fi in range(nfiles):
                 ext = chk.rng.choice(["py", "py", "js", "c", "java"])
@@ -171,11 +177,29 @@ def check_cases(chk, n_cases):
                     lengths = [chk.rng.choice([30, 31, 32, 60, 61, 62])]
                     text = render_file(ext, lengths).rstrip("\n") + chk.rng.choice(["", "\n"])
                     chk.count("check: file that is exactly one function at a threshold")
-                with open(os.path.join(root, name), "w") as f:
+                if chk.rng.random() < 0.1:
+                    # classic Mac line ends: reading in text mode turns a lone carriage return into a line break, so the lines
+                    # (and the lengths) are the same as with LF (seeded change C02-17: lines counted on the raw bytes)
+                    text = text.replace("\n", "\r")
+                    chk.count("check: file with lone carriage returns as line breaks")
+                if narrow:
+                    name = os.path.join(LONG_DIR, name)
+                    os.makedirs(os.path.join(root, LONG_DIR), exist_ok=True)
+                with open(os.path.join(root, name), "w", newline="") as f:
                     f.write(text)
                 files.append((name, ext, lengths))
             quiet = chk.rng.random() < 0.5
-            code, out = run_check(root, [f[0] for f in files], quiet)
+            old_cols = os.environ.get("COLUMNS")
+            if narrow:
+                os.environ["COLUMNS"] = "80"
+                chk.count("check: paths longer than the 80-column console")
+            try:
+                code, out = run_check(root, [f[0] for f in files], quiet)
+            finally:
+                if old_cols is None:
+                    os.environ.pop("COLUMNS", None)
+                else:
+                    os.environ["COLUMNS"] = old_cols
             listing, summary = parse_check_output(out)
             # analysed results (implementation's own scan) -> model input
             analysed = []
